@@ -96,7 +96,11 @@ NoUnderBuild ==
                    OnAlways(n) \/ ~MustRun(n)
 
 \* at most once per run (C05, C07, C14)
-NoDupRun == \A i, k \in 1..Len(ran) : i # k => ran[i] # ran[k]
+\* (a target named on the command line of a forced `redo` is rebuilt by that request
+\* even if a dependent already brought it up to date: one extra run, as in a serial build)
+Forced(t) == cmd.kind = "redo" /\ t \in {cmd.targs[i] : i \in 1..Len(cmd.targs)}
+NoDupRun == \A t \in Plain :
+               Cardinality({i \in 1..Len(ran) : ran[i] = t}) <= (IF Forced(t) THEN 2 ELSE 1)
 
 (***************************************************************************)
 (* C04 / C11                                                               *)
